@@ -40,3 +40,15 @@ func VerifSocketPipes(s mangos.Socket) int {
 	defer cs.pipes.lock.Unlock()
 	return len(cs.pipes.pipes)
 }
+
+// VerifSocketClosed reports whether Close has been called on a core socket
+// (false if s is not one).
+func VerifSocketClosed(s mangos.Socket) bool {
+	cs, ok := s.(*socket)
+	if !ok {
+		return false
+	}
+	cs.Lock()
+	defer cs.Unlock()
+	return cs.closed
+}
